@@ -23,4 +23,27 @@ def rewriteStr (m : Mem) (addr : Nat) (v : Val) : Except AErr Mem :=
     else .ok (apply [(addr, le 8 cur), (addr + 8, zeros (cur - 8))] m)
   | _ => .error .value
 
+/-- the header patch of an array with the size word forced to `cur` (`info.size = size`: "the size of an instance never changes") -/
+def keepSize (cur : Nat) : List Patch → List Patch
+ | (0, bs) :: ps => (0, le 8 cur ++ bs.drop 8) :: ps
+ | ps => ps
+
+/-- `Array._update(value)` on an existing array at `addr` (whole-array assignment `s.f = [...]`, `a[i] = [...]`): the value must have
+the array's CURRENT shape (for a one-dimensional array: its length), and must not need more bytes than the instance has; then it is
+written like a new object, except that the size word keeps the instance's size.  Arrays of static shape and static items have no
+header and no size word: the class fixes shape and size. -/
+def updateArr (it : Ty) (shape : List (Option Nat)) (order : List Nat) (m : Mem) (addr : Nat) (v : Val) : Except AErr Mem :=
+  match v with
+  | .arr sh items =>
+    let ai := ainfo it shape
+    if ai.staticShape && ai.staticType then
+      if sh ≠ readDims m shape 0 then .error .value
+      else .ok (apply (shift addr (patchesD (.array it shape order) v)) m)
+    else
+      let cur := fromLE (readAt m addr 8)
+      if sh ≠ readDims m shape (addr + 8) then .error .value
+      else if vsize (.array it shape order) (.arr sh items) > cur then .error .value
+      else .ok (apply (shift addr (keepSize cur (patchesD (.array it shape order) v))) m)
+  | _ => .error .value
+
 end Lay
